@@ -469,6 +469,45 @@ theorem C13_load_orphans_witness :
   have h2 : (loadInPlace hd t1 2).parent 2 = none := by decide
   rw [h2] at this; cases this
 
+/-- the theorem behind `C13_rejected_unchanged` for `Workflow(label, *nodes)`, spelled out: for
+EVERY argument list (orphans with equal labels, owned nodes, workflows, repeated nodes, the
+workflow's own children), either naming mode and EVERY point of rejection (the k-th adoption, or
+anything after the loop: an unknown input keyword, a failing autoload / autorun) the construction
+is all-or-nothing — accepted with the invariant intact, or the tree is literally the one before -/
+theorem C13_construct_all_or_nothing (fuel : Nat) (t : Tree) (h : WFTree t) (c : Nat) (l : Str)
+    (kids : List Nat) (fails : Bool) (hfresh : t.parent c = none)
+    (hrec : (step (Cfg.repaired fuel) t (.newWith c l kids fails)).2 ≠ .recursionError) :
+    ((step (Cfg.repaired fuel) t (.newWith c l kids fails)).2 = .ok ∧
+      WFTree (step (Cfg.repaired fuel) t (.newWith c l kids fails)).1) ∨
+    ((step (Cfg.repaired fuel) t (.newWith c l kids fails)).2 ≠ .ok ∧
+      (step (Cfg.repaired fuel) t (.newWith c l kids fails)).1 = t) := by
+  have s := newWorkflowWith_spec (repaired_repaired fuel) h c l kids fails hfresh
+  by_cases hok : (step (Cfg.repaired fuel) t (.newWith c l kids fails)).2 = .ok
+  · exact .inl ⟨hok, s.1 hrec⟩
+  · exact .inr ⟨hok, s.2 rfl hok hrec⟩
+
+def base14 : List Op := [.new 2 ['x'] none, .new 3 ['x'] none, .new 6 ['x'] none, .new 0 ['o'] none,
+  .new 7 ['t'] (some 0)]
+def t14 : Tree := run rep exEmpty base14
+theorem t14_wf : WFTree t14 := C13_history 64 _ _ _ base14 (by decide)
+
+/-- seeded change C13-9 (the undo log records the label *after* `add_child`): the non-strict
+workflow 1 is handed three orphans labelled `x` and then a node that somebody else owns; the
+roll-back gives the orphans back as `x`, `x0`, `x1`.  The log of the real code (label before)
+restores the tree (`C13_construct_all_or_nothing`). -/
+theorem C13_construct_log_order_witness :
+    let r := adoptAllLate rep 1 (fresh t14 1 ['v']) [] [2, 3, 6, 7]
+    r.2.2 = .valueError ∧ (undoAdopt 1 r.1 r.2.1).label 3 = ['x', '0'] ∧
+    (undoAdopt 1 r.1 r.2.1).label 6 = ['x', '1'] ∧ t14.label 3 = ['x'] ∧
+    (step rep t14 (.newWith 1 ['v'] [2, 3, 6, 7] false)).2 = .valueError ∧
+    (step rep t14 (.newWith 1 ['v'] [2, 3, 6, 7] false)).1.label 3 = ['x'] ∧
+    (step rep t14 (.newWith 1 ['v'] [2, 3, 6, 7] false)).1.label 6 = ['x'] ∧
+    (step rep t14 (.newWith 1 ['v'] [2, 3, 6] true)).2 = .setupError ∧
+    (step rep t14 (.newWith 1 ['v'] [2, 3, 6] true)).1.label 6 = ['x'] ∧
+    (step rep t14 (.newWith 1 ['v'] [2, 3, 6] false)).1.children 1 =
+      [(['x'], 2), (['x', '0'], 3), (['x', '1'], 6)] := by
+  decide +kernel
+
 def base10 : List Op := [.new 0 ['u'] none]
 def t10 : Tree := run rep exEmpty base10
 /-- KF-C13-10: a macro whose graph creator adds a child labelled like the root workflow cannot
@@ -502,6 +541,8 @@ end PwVerif.C13
 #print axioms PwVerif.C13.C13_ctor_zombie_witness
 #print axioms PwVerif.C13.C13_workflow_ctor_witness
 #print axioms PwVerif.C13.C13_load_orphans_witness
+#print axioms PwVerif.C13.C13_construct_all_or_nothing
+#print axioms PwVerif.C13.C13_construct_log_order_witness
 #print axioms PwVerif.C13.C13_replace_refused_unchanged
 #print axioms PwVerif.C13.C13_one_parent
 #print axioms PwVerif.C13.C13_rank
